@@ -176,3 +176,57 @@ example :
   linarith [c1, c2, c3]
 
 end
+
+/-! ### per-face area: coplanar, consistently oriented simplices -/
+noncomputable section
+
+/-- **C01 per-face area.** If the simplices grouped into one face are coplanar and consistently
+oriented — every simplex normal vector `(b−a)×(c−a)` is a non-negative multiple `λ_t • u` of one
+unit vector `u` — then the reported face area (sum of simplex areas, `get_face_area`) equals half
+the length of the face's area vector `Σ_t (b−a)×(c−a)`, i.e. the exact area of the planar polygon
+whatever its triangulation. -/
+theorem cp_face_area_exact (simps : List (Tri ℝ)) (u : V3 ℝ) (hu : V3.norm u = 1)
+    (lam : Tri ℝ → ℝ) (hlam : ∀ t ∈ simps, 0 ≤ lam t ∧ t.nvec = V3.smul (lam t) u) :
+    CP.faceArea simps = V3.norm (V3.sum (simps.map Tri.nvec)) / 2 := by
+  have hnorm_smul : ∀ k : ℝ, 0 ≤ k → V3.norm (V3.smul k u) = k := by
+    intro k hk
+    unfold V3.norm V3.normSq V3.dot at hu ⊢
+    simp only [V3.smul_x, V3.smul_y, V3.smul_z, Scalar.sqrt_real] at hu ⊢
+    rw [show k * u.x * (k * u.x) + k * u.y * (k * u.y) + k * u.z * (k * u.z)
+        = k ^ 2 * (u.x * u.x + u.y * u.y + u.z * u.z) by ring,
+      Real.sqrt_mul (by positivity), Real.sqrt_sq hk, hu, mul_one]
+  have harea : ∀ t ∈ simps, CP.triArea t = lam t / 2 := by
+    intro t ht
+    obtain ⟨h0, hn⟩ := hlam t ht
+    have := triArea_two t
+    simp only [Scalar.lit, Scalar.ofNat_real] at this
+    rw [hn, hnorm_smul _ h0] at this
+    push_cast at this; linarith
+  have hsum : V3.sum (simps.map Tri.nvec) = V3.smul ((simps.map lam).sum) u := by
+    clear harea
+    induction simps with
+    | nil => ext <;> simp [V3.sum]
+    | cons t ts ih =>
+      have ih' := ih (fun s hs => hlam s (List.mem_cons_of_mem _ hs))
+      have ht := (hlam t List.mem_cons_self).2
+      simp only [List.map_cons, List.sum_cons, V3.sum, List.foldr_cons] at ih' ⊢
+      rw [ih', ht]
+      ext <;> simp only [V3.smul_x, V3.smul_y, V3.smul_z] <;>
+        first | (show (V3.add _ _).x = _; simp only [V3.add, V3.smul]; ring)
+              | (show (V3.add _ _).y = _; simp only [V3.add, V3.smul]; ring)
+              | (show (V3.add _ _).z = _; simp only [V3.add, V3.smul]; ring)
+  have hnn : 0 ≤ (simps.map lam).sum := by
+    apply List.sum_nonneg
+    intro x hx
+    obtain ⟨t, ht, rfl⟩ := List.mem_map.mp hx
+    exact (hlam t ht).1
+  rw [hsum, hnorm_smul _ hnn]
+  unfold CP.faceArea
+  simp only [Scalar.sum_real]
+  rw [List.map_congr_left harea]
+  clear hsum harea hnn hlam
+  induction simps with
+  | nil => simp
+  | cons t ts ih => simp only [List.map_cons, List.sum_cons, ih]; ring
+
+end
